@@ -1130,6 +1130,18 @@ func (s *sess) ServeDNS(w dns.ResponseWriter, r *dns.Msg) {
 		}
 		s.k.Bump("probe.badtime_reply_signed")
 	}
+	if ts := r.IsTsig(); ts != nil && st == nil && s.sc.RunSeed%4 == 1 && r.Id%2 == 0 {
+		// the handler's first attempt at an answer cannot be packed (an owner name that is not fully
+		// qualified): WriteMsg reports that, and the handler then answers properly. What went wrong with the
+		// first attempt is no business of the second: it is the answer to the same request
+		bad := new(dns.Msg)
+		bad.SetReply(r)
+		bad.Answer = append(bad.Answer, &dns.MX{Hdr: dns.RR_Header{Name: "not-qualified", Rrtype: dns.TypeMX, Class: dns.ClassINET, Ttl: 60}, Preference: 10, Mx: "mail"})
+		bad.SetTsig(ts.Hdr.Name, ts.Algorithm, ts.Fudge, time.Now().Unix())
+		if err := w.WriteMsg(bad); err != nil {
+			s.k.Bump("fault.first_reply_cannot_be_packed")
+		}
+	}
 	if s.sc.Async && s.sc.Transport == "udp" {
 		s.k.Go("async-reply", &lateReply{s.k, w, m, 1 + int(r.Id%3)})
 		s.k.Bump("probe.reply_after_handler_returned")
